@@ -37,7 +37,22 @@ def run(cmd, cwd=None, timeout=900):
     return p.returncode, p.stdout
 
 
+def claimed():
+    return [c["property_id"] for c in json.load(open(os.path.join(HERE, "MANIFEST.json")))["checks"]]
+
+
 def check(scratch, prop, expect):
+    if prop == "NEG":
+        # behaviour-preserving refactor: every claimed check must stay green ("killed" = stays green)
+        bad = []
+        for p in claimed():
+            rc, out = run([os.path.join(HERE, "bin", "texelcheck"), "-property", p, "-repo", scratch])
+            if rc != 0:
+                viol = [l for l in out.splitlines() if ": violated " in l or ": undecided " in l]
+                bad.append(p + ": " + (viol[0][:300] if viol else out.strip().splitlines()[-1][:300]))
+        if bad:
+            return 1, "FALSE ALARM on a behaviour-preserving edit: " + " || ".join(bad)
+        return 0, "SELFTEST stays green on all %d checks (behaviour-preserving edit)" % len(claimed())
     return run([os.path.join(HERE, "bin", "texelcheck"), "-property", prop, "-repo", scratch, "-expect", expect])
 
 
